@@ -33,6 +33,12 @@ FIXED_MIXES = [
 ]
 
 
+PLATE_PIN = {'src.water': '55508.4351', 'src.NaCl': '1000.0000001', 'src.lipase': '250.5', 'dst.water': '12.3456789012',
+             'P11.water': '5550.84351', 'P12.water': '2775.4217', 'P11.NaCl': '100.0000001', 'P12.NaCl': '50.5',
+             'P11.lipase': '25.05', 'P12.lipase': '12.5', 'Q11.water': '12.3456789012', 'Q12.water': '1.5',
+             'S11.water': '55508.4351', 'S11.NaCl': '1000.0000001', 'S11.lipase': '250.5'}
+
+
 def cells(tier, seed):
     out = []
     units = quantity_units(tier)
@@ -62,6 +68,14 @@ def cells(tier, seed):
         for unit in (['uL', 'mg'] if tier == 'quick' else ['uL', 'mg', 'mmol', 'U']):
             out.append({'id': f"plate/{form}/{unit}", 'fn': 'h_plate', 'round': 'lite', 'max_paths': 200, 'cost': 4,
                         'params': {'unit': unit, 'form': form, 'n': 2 if tier == 'quick' else 3}})
+    # plate forms under the delta rounding model: concrete (pinned) mixtures, symbolic quantity with many decimals
+    # (one source dispensing into several wells is left to the lite model: the second draw divides by a volume that
+    #  carries the first draw's rounding errors, and the nonlinear queries do not finish)
+    for form in ['row->c', 'row->row']:
+        for unit in (['uL', 'umol'] if tier == 'quick' else ['uL', 'nL', 'mg', 'umol', 'nmol']):
+            out.append({'id': f"plate/{form}/{unit}/delta", 'fn': 'h_plate', 'round': 'delta', 'max_paths': 200, 'cost': 5,
+                        'params': {'unit': unit, 'form': form, 'n': 2, 'delta': True, 'pin': PLATE_PIN, 'q_hi': 1,
+                                   'fabs': 1e-13}})
     return out
 
 
@@ -194,7 +208,11 @@ def h_plate(h):
     mix = ['water', 'NaCl', 'lipase']
     lib = Lib(h, mix)
     prefix, base = split_unit(p['unit'])
-    q = h.real('q', 0, 10**6)
+    q = h.real('q', 0, p.get('q_hi', 10**6))
+    if p.get('delta'):
+        # a quantity with more decimals than the library keeps, whatever value the solver picks (so that a witness of a
+        # rounding in the wrong unit reproduces in floats)
+        q = q + h.const('0.0000123456789')
     qb = q * PREFIX[prefix]
     form = p['form']
     quantity = f"{q} {p['unit']}"
